@@ -2,7 +2,7 @@
     The round trip is a theorem at the level of tokens for every well-formed tree and operator table (lemma (B),
     Lemmas/PrattFull.v); two computable side conditions carry it to text, and the correspondence run evaluates both on every
     tree it meets. The printer's local choices (quotes, `x not OP y`, parenthesised operands) are proved separately. *)
-From EE Require Import Chars OpTable Decimal Token Lexer Ast Parser Printer Api Etoks PrattFull ImplTable Names.
+From EE Require Import Chars OpTable Decimal Token Lexer Ast Parser Printer Api Etoks PrattFull LexPrintExpr ImplTable Names.
 Open Scope N_scope.
 
 (* a string literal is quoted with a quote character that does not occur in it (when it does not contain both) *)
@@ -79,3 +79,29 @@ Example C12_round_trip_example :
   premises builtin_table t = true /\ printer_tokens builtin_table t = true.
 Proof. vm_compute. split; reflexivity. Qed.
 Print Assumptions C12_round_trip_example.
+
+(* THE ROUND TRIP THROUGH TEXT, WITHOUT SIDE CONDITIONS TO EVALUATE (lemma (A) + lemma (B)). For every operator table that
+   passes the computable print check [tbl_print_okb] (operators are symbolic with registered prefixes, or words; none contains
+   whitespace or a separator; `true`/`false` are not operators, `not` is) and every tree that meets the premises of lemma (B)
+   and whose leaves are lexically sane ([psaneb]: names are identifiers that are neither keywords nor operator words, numbers
+   are non-negative and in range, a string does not contain both quote characters) - the tokenizer model reads the printer
+   model's text as the printer's token image (Lemmas/LexPrint.v, LexPrintExpr.v), so parse(expr(t)) = t and expr is idempotent. *)
+Theorem C12_round_trip_text : forall tbl t, tbl_print_okb tbl = true -> premises tbl t = true -> psaneb tbl t = true ->
+  api_parse tbl (expr tbl t) = Ok t.
+Proof. intros tbl t. exact (text_round_trip_all tbl t). Qed.
+Print Assumptions C12_round_trip_text.
+
+Theorem C12_builtin_table_print_ok : tbl_print_okb builtin_table = true.
+Proof. vm_compute. reflexivity. Qed.
+Print Assumptions C12_builtin_table_print_ok.
+
+Example C12_round_trip_text_example :
+  let one := ALit (LNum (of_Z 1)) in
+  let a := ARef [97] in
+  let t1 := ATernary (ABinary n_mul (AUnary n_sub (APostfix a n_inc)) (ABinary n_add one one))
+                     (AList [one; AFunc n_min [ALit (LStr [115])]])
+                     (AMap [(ARef [107], AUnary s_not (ABinary n_in a a))]) in
+  let t := AStmt [t1; ABinary n_assign (ARef [98]) (ALit (LBool true))] in
+  premises builtin_table t = true /\ psaneb builtin_table t = true.
+Proof. vm_compute. split; reflexivity. Qed.
+Print Assumptions C12_round_trip_text_example.
